@@ -564,7 +564,7 @@ def _run_table(ctx, make_exe, shape, max_size, max_width, post_fn, loop_bound=40
     exe = make_exe(inline=[r"RenderTable::rows$", r"RenderTableRow::cells$", r"RenderTableCell::get_size_estimate$",
                            r"SizeEstimate::max$", r"<SizeEstimate as Default>::default$",
                            r"<SubRenderer<D> as Renderer>::width$"],
-                   loop_bound=loop_bound, timeout_ms=30000, fallback_timeout_s=300)
+                   loop_bound=loop_bound, timeout_ms=120000, fallback_timeout_s=300)
     st = State()
     width = exe.fresh("usize", "width")
     raw = exe.fresh("bool", "raw")
@@ -2512,6 +2512,9 @@ def _hard_wrap_posts(ctx, f, exe, m, ref, pieces, allchars, outs, label, want_se
         post(exe, s2, z3.Implies(z3.Not(m.allow_overflow.e), z3.And(z3.ULE(p["line_len"], m.width.e), z3.ULE(p["maxlen"], m.width.e))),
              f.name, label + ": no line is wider than the block")
         post(exe, s2, z3.Not(p["word_nonempty"]), f.name, label + ": the word buffer is empty afterwards")
+        # also with overflow allowed: an over-wide character is flushed on a line of its own, the line in progress always fits
+        # (this is what the hard-wrap contract of the other wrap specs assumes)
+        post(exe, s2, z3.ULE(p["line_len"], m.width.e), f.name, label + ": the line in progress fits the block even when overflow is allowed")
         # every character of the word is emitted exactly once, in order
         got = []
         seq = []      # characters and fragment markers in emission order
